@@ -57,7 +57,7 @@ func fCond(r *openfgav1.RelationReference) *openfgav1.RelationReference {
 }
 
 const fFirstNonThis = 16 // index of the first leaf that is not a direct assignment
-const fNumLeaves = 23
+const fNumLeaves = 24
 
 // fLeaves: the 22 leaf forms of relation x; y and z are the next relations (cyclically).
 func fLeaves(i, n int) []fLeaf {
@@ -90,6 +90,8 @@ func fLeaves(i, n int) []fLeaf {
 		{x + " from p", fTTU(x, "p"), nil},
 		// leaf 22 (a direct assignment after the non-this leaves: never admitted as second operand)
 		{"[user:*, employee:*]", fThis(), R(fWild("user"), fWild("employee"))},
+		// leaf 23: a direct assignment without any type restriction (JSON only): an operand that reaches nothing
+		{"[]", fThis(), nil},
 	}
 }
 
@@ -467,6 +469,8 @@ func verifBuildAndCompare(m *openfgav1.AuthorizationModel, key string) {
 	multi := g.invalid == "" && g.hasMultiEdgeOperand()
 	cls := "other"
 	switch {
+	case g.invalid == "" && g.hasEmptyOperand():
+		cls = "intersection/exclusion operand without any edge"
 	case multi:
 		cls = "intersection/exclusion operand made of several edges"
 	case verdict == "rewrite-only cycle":
